@@ -284,6 +284,19 @@ def _r3_r9(ctx):
             if (callee_name(tm) or "").endswith("::unwrap_or"):
                 dfl.append(norm(T.call_args(bb)[1]))
         ctx.check([const_of(d) for d in dfl] == [True] and all(len(d) == 3 for d in dfl), "R9", "absent-subnet-condition-matches", ctx.where(b), "unwrap_or default(s): %s" % [show(d) for d in dfl])
+        # ... and only an absent list does: the Option that reaches map(any)/unwrap_or(true) is self.subnet itself, not a filtered one
+        for bb, tm in b.calls():
+            if (callee_name(tm) or "").endswith("::unwrap_or"):
+                src = norm(T.call_args(bb)[0])
+                chain = []
+                y = src
+                while y[0] == "call" and len(chain) < 8:
+                    chain.append(str(y[1]).rsplit("::", 1)[-1])
+                    y = norm(y[2][0]) if y[2] else ("unknown",)
+                okc = chain == ["map"] and y[0] == "field" and y[2] == "subnet"
+                ctx.check(okc, "R9", "only-an-absent-subnet-list-matches-everyone", ctx.where(b, tm["sp"]),
+                          "the condition must be self.subnet.as_ref().map(any-member-contains).unwrap_or(true); found chain %s over %s — an "
+                          "empty list (what the default rules get when no addresses are configured) must match nobody" % (chain, show(y)[:40]))
         # the result is Some(&permission) only when the conjunction holds
         somes = [(bb, idx, s) for bb, idx, s in b.stmts() if s["p"] == (0,) and "rv" in s and s["rv"]["k"] == "agg" and s["rv"].get("variant") == "Some"]
         okk = bool(somes)
